@@ -353,6 +353,7 @@ func (t *Thread) CallContext(def RuntimeContextDef, f func() error) (ctx Runtime
 			}
 			t.closeStack.truncate(h) // No resources to run that, so just discard it.
 			err = termErr
+			t.propagateTermination(termErr)
 		}
 	}()
 	err = t.cleanupCloseStack(c, h, f())
